@@ -385,7 +385,39 @@ fn c02_gen(seed: u64, run: u64, thorough: bool) -> Plan {
     plan
 }
 fn c02_gen_b(seed: u64, run: u64, thorough: bool) -> Plan {
-    b_transport("C02", "b_fault_then_fair", seed, run, thorough, true, false, true)
+    let mut plan = b_transport("C02", "b_fault_then_fair", seed, run, thorough, true, false, true);
+    // every other run: the first client's own traffic is replaced by parent-lead patterns - a
+    // Reliable packet on one channel, 126..300 small packets of other modes on a second channel
+    // with a Reliable one among them, then small packets on the first channel again, all in one
+    // instant during the fault phase: leads of exactly 127/128 and 255/256 packets, where the
+    // datagram header formats change, while the Reliable packet they refer to may be lost
+    if (run / 6) % 2 == 0 {
+        let mut r = Rng::keyed(&[seed, run, 0xb02]);
+        let heal = plan.timeline.iter().find(|t| matches!(&t.op, Op::Mark { name } if name == "heal")).map(|t| t.t_us).unwrap_or(5_000_000);
+        let c = 1usize;
+        plan.timeline.retain(|t| !matches!(&t.op, Op::Send { ep, .. } if *ep == c));
+        let mut tag = 800_000u32;
+        for _ in 0..r.range(2, 4) {
+            let t = r.range(1_000_000, heal.max(1_000_001));
+            let (a, b) = (r.below(2) as u8, 2 + r.below(2) as u8);
+            let other = *r.pick(&[MODE_UNRELIABLE, MODE_PERSISTENT]);
+            let mut push = |plan: &mut Plan, ch: u8, mode: u8, len: u32| {
+                plan.push(t, 0x4000_0000 + tag, Op::Send { ep: c, to: None, ch, mode, len, tag });
+                tag += 1;
+            };
+            push(&mut plan, a, MODE_RELIABLE, r.range(12, 40) as u32);
+            let far = *r.pick(&[120u64, 126, 200, 250, 254]);
+            for _ in 0..far {
+                push(&mut plan, b, other, r.range(12, 60) as u32);
+            }
+            push(&mut plan, b, MODE_RELIABLE, r.range(12, 40) as u32);
+            for _ in 0..(258 - far).max(8) + r.range(0, 40) {
+                push(&mut plan, a, other, r.range(12, 63) as u32);
+            }
+        }
+        plan.sort();
+    }
+    plan
 }
 fn c02_gen_one_way(seed: u64, run: u64, thorough: bool) -> Plan {
     world_b_one_way("C02", "b_one_way_stream", seed, run, thorough)
